@@ -71,7 +71,7 @@ def register(R):
                    ]}},
                ensures=[
                    ("C01", "self._total_samples == old(self._total_samples) + 1"),
-                   ("C01", "self._samples_since_reset == (1 if %s else old(self._samples_since_reset) + 1)" % FRESH),
+                   ("C01,C02", "self._samples_since_reset == (1 if %s else old(self._samples_since_reset) + 1)" % FRESH),
                    ("C05", "self._window[-1] == " + C),
                    # continuity-corrected two-proportion test between the window and everything before it
                    ("C05", "implies(%s >= 2 * %s, self._test_statistic == %s and self._test_p == %s)" % (N, W, STAT, P)),
